@@ -262,12 +262,13 @@ type blkNote struct {
 
 // blkEnv is one real allocator together with the adapter's contract state.
 type blkEnv struct {
-	bs   int
-	size int64
-	fit  bool
-	back blkBacking
-	b    *gbytes.Blocks
-	cfg  string
+	probes int
+	bs     int
+	size   int64
+	fit    bool
+	back   blkBacking
+	b      *gbytes.Blocks
+	cfg    string
 
 	cnt    int
 	alloc  []bool // contract state
@@ -553,6 +554,7 @@ func (e *blkEnv) snapshotCheck(after string) blkSnap {
 	}
 	res.ok = true
 	res.avail = b2.Available()
+	e.fillProbe(snap, after)
 	if b2.Count() != e.cnt {
 		e.note("blocks: reopened copy reports a different Count", b2.Count(), e.cnt)
 	}
@@ -591,6 +593,52 @@ func (e *blkEnv) snapshotCheck(after string) blkSnap {
 		e.note("blocks: reopened copy: Available after freeing everything is not Count", b2.Available(), e.cnt)
 	}
 	return res
+}
+
+// fillProbe opens a third allocator on a copy of the bytes and USES it: it must hand out exactly the
+// blocks that are free (each once, none that is allocated) and report ErrExhausted exactly then.  This
+// observes state the reopened allocator derives from the bytes beyond Available (its scan position).
+func (e *blkEnv) fillProbe(snap []byte, after string) {
+	e.probes++
+	if e.cnt > 4096 || e.cnt > 64 && e.probes%16 != 0 {
+		return // large geometries: sampled
+	}
+	cp := gbytes.NewInMemBytes(len(snap))
+	if len(snap) > 0 {
+		dst, _ := cp.Buffer(0, len(snap))
+		copy(dst, snap)
+	}
+	var b3 *gbytes.Blocks
+	var err error
+	if p, _ := callPanics(func() { b3, err = gbytes.NewBlocks(e.bs, cp, e.fit) }); p || err != nil || b3 == nil {
+		return // already reported by the caller
+	}
+	free := e.cnt - e.nalloc
+	seen := map[int]bool{}
+	for k := 0; k <= free; k++ {
+		var idx int
+		var ae error
+		if p, _ := callPanics(func() { idx, ae = b3.ArrangeBlock() }); p {
+			e.note("blocks: ArrangeBlock panicked on a reopened copy", map[string]any{"after": after}, nil)
+			return
+		}
+		if k == free {
+			if blkErrKind(ae) != "exhausted" {
+				e.note("blocks: reopened copy: ArrangeBlock succeeded although every block is allocated", map[string]any{"after": after, "idx": idx}, nil)
+			}
+			return
+		}
+		if ae != nil {
+			e.note("blocks: reopened copy: ArrangeBlock reports "+blkErrKind(ae)+" although free blocks remain",
+				map[string]any{"after": after, "handed_out": k}, free)
+			return
+		}
+		if idx < 0 || idx >= e.cnt || e.alloc[idx] || seen[idx] {
+			e.note("blocks: reopened copy: ArrangeBlock returned an index that is allocated or was just handed out", map[string]any{"after": after, "idx": idx}, nil)
+			return
+		}
+		seen[idx] = true
+	}
 }
 
 func (e *blkEnv) allocList() []int {
